@@ -500,6 +500,24 @@ fn metric(body: &str, name: &str) -> i64 {
     body.lines().find(|l| l.starts_with(name) && l[name.len()..].starts_with(' ')).and_then(|l| l[name.len() + 1..].trim().parse::<f64>().ok()).map(|x| x as i64).unwrap_or(-1)
 }
 
+/// How many DHCP packets the service has finished with: every path through recvdhcp ends by counting a sent packet
+/// or an error (its own Prometheus counters, read in-process).  Lets the driver wait for "handled" instead of guessing
+/// a timeout for "no reply".
+fn dhcp_handled() -> (u64, u64) {
+    let (mut sent, mut errors) = (0u64, 0u64);
+    for mf in prometheus::gather() {
+        let which = match mf.get_name() {
+            "dhcp_sent_packets" => &mut sent,
+            "dhcp_errors" => &mut errors,
+            _ => continue,
+        };
+        for m in mf.get_metric() {
+            *which += m.get_counter().get_value() as u64;
+        }
+    }
+    (sent, errors)
+}
+
 /// One message of a lease scenario through the real service: the same event as the function-level
 /// driver records (harness/src/dhcp.rs, level "pkt"), with lvl = "svc".
 fn lease_msg_svc(st: &mut crate::dhcp::Store, sock: &PacketSock, live: &erbium::config::SharedConfig, step: &Value) -> Value {
@@ -574,16 +592,28 @@ fn lease_msg_svc(st: &mut crate::dhcp::Store, sock: &PacketSock, live: &erbium::
     let frame = udp_frame(chaddr, [0xff; 6], [0, 0, 0, 0], 68, [255, 255, 255, 255], 67, &payload);
     let before = st.table();
     let t0 = st.now();
+    let handled0 = dhcp_handled();
     let reply = tokio::task::block_in_place(|| {
         sock.flush();
         if !sock.send(&frame) {
             return None;
         }
-        // a reply comes within a millisecond or so; without one, wait longer only if the store changed (a reply is then due)
-        match sock.recv_dhcp(120) {
-            Some(r) => Some(r),
-            None => {
-                if st.table() != before { sock.recv_dhcp(2000) } else { None }
+        // wait until the service has finished with the packet (sent a reply or counted an error), then look for the frame
+        let end = std::time::Instant::now() + std::time::Duration::from_secs(6);
+        loop {
+            if let Some(r) = sock.recv_dhcp(5) {
+                return Some(r);
+            }
+            let (sent, errors) = dhcp_handled();
+            if sent > handled0.0 {
+                return sock.recv_dhcp(1000); // counted as sent: the frame is on its way
+            }
+            if errors > handled0.1 {
+                return None; // the service gave up on this packet: there will be no frame
+            }
+            if std::time::Instant::now() > end {
+                // never counted: as a last resort the old rule (a changed store announces a reply)
+                return if st.table() != before { sock.recv_dhcp(2000) } else { None };
             }
         }
     });
